@@ -58,10 +58,10 @@ type loadStats struct {
 }
 
 var ldNames = []string{"a", "b", "docs", "build", "clean", "default", "A", "SRC", "lint"}
-var ldVarNames = []string{"A", "B", "SRC", "docs", "build", "OUT", "UNDEFINED_LATER"}
+var ldVarNames = []string{"A", "B", "SRC", "docs", "build", "OUT", "UNDEFINED_LATER", "Environ", "String"}
 var ldStrings = []string{"file.go", "src/*.go", "**/*.ts", "*.ts", "*.tsx", "pages/[id].tsx", "data?.csv", "conf{prod}.yml", "./x.txt", "../up.txt", "dir/", "",
 	"a b.txt", ".hidden/*.json", "./src/*", "**", "*", "docs", "build/", "x/../y.txt", "//abs//p", "é.txt", "*.{js,ts}", "[*]"}
-var ldCmds = []string{"ls", "echo {{.A}}", "echo {{ .B }} and $A", "echo {{.UNDEFINED_LATER}}", "go build -o {{.OUT}} ./...", "echo '{{.SRC}}' > {{.docs}}", "echo 100%", "echo {{.A}}{{.B}}"}
+var ldCmds = []string{"ls", "echo {{.A}}", "echo {{ .B }} and $A", "echo {{.UNDEFINED_LATER}}", "go build -o {{.OUT}} ./...", "echo '{{.SRC}}' > {{.docs}}", "echo 100%", "echo {{.A}}{{.B}}", "echo {{.Environ}} {{.String}}"}
 
 func hxs(l []string) string {
 	h := make([]string, len(l))
